@@ -10,7 +10,7 @@ HARNESS = os.path.join(VERIF, "harness")
 TARGET = os.path.join(VERIF, "target")
 WORK = os.path.join(VERIF, "work")
 REPLAYS = os.path.join(VERIF, "replays")
-EVIDENCE = os.path.join(VERIF, "evidence")
+EVIDENCE = os.environ.get("FIV_EVIDENCE_DIR") or os.path.join(VERIF, "evidence")  # validation runs against seeded changes write elsewhere
 CORES = max(2, min(16, os.cpu_count() or 4))
 GUARD = "--cfg futures_intrusive_verif"
 HOST = "x86_64-unknown-linux-gnu"
